@@ -497,7 +497,11 @@ class C12(Property):
                     lo = hi
             if strand == -1:
                 parts.reverse()
-            case["cds"].append({"loc": {"c": True, "parts": parts}, "name": f"over{i}"})
+            loc = {"c": True, "parts": parts}
+            # two genes naming the same bases (differently cut into exons) become one location once abutting exons
+            # are merged, and the loader refuses two CDS at one location: not generated
+            if all(canon(loc) != canon(other["loc"]) for other in case["cds"]):
+                case["cds"].append({"loc": loc, "name": f"over{i}"})
         if rng.random() < 0.5:
             size = 3 * rng.randint(2, 4)
             lo = rng.randint(0, max(0, end - size))
